@@ -113,6 +113,7 @@ func cmdCheck(args []string) int {
 	repo := fs.String("repo", "/repo", "repository root")
 	only := fs.String("only", "", "report only the obligation with this key (replay)")
 	noEvidence := fs.Bool("no-evidence", false, "do not write evidence (used by selftest)")
+	patch := fs.String("patch", "", "dev aid: analyse the tree with this patch applied in memory (implies -no-evidence)")
 	fs.Parse(args)
 	if *tier == "" {
 		*tier = "quick"
@@ -125,7 +126,17 @@ func cmdCheck(args []string) int {
 	}
 	start := time.Now()
 	vd := verifDir()
-	rep, err := runConfigs(c, *repo, *tier, nil)
+	var overlay map[string][]byte
+	if *patch != "" {
+		*noEvidence = true
+		ov, ok, why := overlayFor(variant{Name: "patch", Kind: "neutral", Patch: *patch}, *repo, "/")
+		if !ok {
+			fmt.Fprintln(os.Stderr, "patch:", why)
+			return 2
+		}
+		overlay = ov
+	}
+	rep, err := runConfigs(c, *repo, *tier, overlay)
 	if err != nil {
 		fmt.Printf("VIOLATION property=%s replay=%s\n  analysis could not run: %v\n", c.ID, filepath.Join(vd, "out", "violations", c.ID+"-load.json"), err)
 		os.MkdirAll(filepath.Join(vd, "out", "violations"), 0o755)
@@ -236,6 +247,7 @@ func runConfigs(c *rules.Check, repo, tier string, overlay map[string][]byte) (r
 		if i > 0 {
 			rep.Merge(sub)
 		}
+		rules.Release(p)
 	}
 	rep.Analysed["build_configs"] = cfgNames
 	return rep, nil
